@@ -21,6 +21,7 @@ package main
 import (
 	"fmt"
 	"math"
+	"net/netip"
 	"os"
 	"reflect"
 	"sort"
@@ -34,6 +35,7 @@ import (
 
 	meshconfig "istio.io/api/mesh/v1alpha1"
 	networking "istio.io/api/networking/v1alpha3"
+	securityapi "istio.io/api/security/v1beta1"
 	"istio.io/istio/pilot/pkg/features"
 	"istio.io/istio/pilot/pkg/model"
 	"istio.io/istio/pilot/pkg/networking/util"
@@ -111,13 +113,40 @@ type proxyDesc struct {
 	network string
 	node    string
 	view    []string
+	ips     []string // default: one IPv4 address
 }
 
+// p5..p9 differ from p1 in exactly one component of what the builder (and therefore the XdsCache key
+// of an assignment) depends on: cluster, node, network view, IP family (v6 only), IP family (dual stack).
 var claProxies = []proxyDesc{
 	{name: "p1", cluster: "c1", network: "", node: "node1"},
 	{name: "p2", cluster: "c2", network: "n1", node: "node2", view: []string{"n1"}},
 	{name: "p3", cluster: "", network: "n2", node: "", view: []string{"n2"}},
 	{name: "p4", cluster: "c1", network: "n1", node: "node1"},
+	{name: "p5", cluster: "c2", network: "", node: "node1"},
+	{name: "p6", cluster: "c1", network: "", node: "node2"},
+	{name: "p7", cluster: "c1", network: "", node: "node1", view: []string{"n1"}},
+	{name: "p8", cluster: "c1", network: "", node: "node1", ips: []string{"fd00:9::8"}},
+	{name: "p9", cluster: "c1", network: "", node: "node1", ips: []string{"10.9.9.9", "fd00:9::9"}},
+}
+
+func (p proxyDesc) ipmode() string {
+	v4, v6 := len(p.ips) == 0, false
+	for _, a := range p.ips {
+		if strings.Contains(a, ":") {
+			v6 = true
+		} else {
+			v4 = true
+		}
+	}
+	m := ""
+	if v4 {
+		m += "4"
+	}
+	if v6 {
+		m += "6"
+	}
+	return m
 }
 
 func proxyByName(n string) proxyDesc {
@@ -136,16 +165,35 @@ var claSubsets = map[string]map[string]string{
 	"all": {},
 }
 
+// the subset labels after a `drset <svc> 1` (a DestinationRule update that re-labels the subsets)
+var claSubsetsAlt = map[string]map[string]string{
+	"v1":  {"version": "v2"},
+	"v2":  {"version": "v1"},
+	"app": {"app": "a", "version": "v1"},
+	"all": {},
+}
+
+func subsetLabels(variant int, name string) map[string]string {
+	if variant == 1 {
+		return claSubsetsAlt[name]
+	}
+	return claSubsets[name]
+}
+
 var claPorts = map[int]string{80: "http", 81: "grpc"}
 
-// gateways of world 1 (multi-network). n1/c1: one gateway plus an ambient-only one (no mTLS port);
-// n2/c2: two gateways (weights are split, lcm = 2); n3/c3: IPv6 only (unreachable for the IPv4 proxies).
+// gateways of world 1 (multi-network). n1: c1 has one mTLS gateway plus an ambient-only one (no mTLS
+// port), c2 has its own (so the network+cluster preference of selectNetworkGateways differs from the
+// per-network list); n2/c2: two gateways (weights are split); n3/c3: one IPv6 gateway and one
+// IPv4-mapped IPv6 address (reachable for IPv4 proxies after Unmap).
 var claGateways = []model.NetworkGateway{
 	{Network: "n1", Cluster: "c1", Addr: "1.1.1.1", Port: 15443},
 	{Network: "n1", Cluster: "c1", Addr: "1.1.1.9", Port: 0, HBONEPort: 15008},
+	{Network: "n1", Cluster: "c2", Addr: "1.1.2.1", Port: 15443},
 	{Network: "n2", Cluster: "c2", Addr: "2.2.2.2", Port: 15443},
 	{Network: "n2", Cluster: "c2", Addr: "2.2.2.3", Port: 15443},
 	{Network: "n3", Cluster: "c3", Addr: "fd00::33", Port: 15443},
+	{Network: "n3", Cluster: "c3", Addr: "::ffff:3.3.3.3", Port: 15443},
 }
 
 func gatewaysOf(world int) []model.NetworkGateway {
@@ -181,6 +229,8 @@ type claWorld struct {
 	conns   map[string]*conn
 	ds      *pxds.DiscoveryServer // not started: see record
 	pushCh  reflect.Value
+	drVar   map[string]int // service name -> DestinationRule variant
+	paOff   bool           // a namespace-wide PeerAuthentication DISABLE exists
 }
 
 func newClaWorld(id int) *claWorld {
@@ -207,29 +257,11 @@ func newClaWorld(id int) *claWorld {
 			Resolution: model.ClientSideLB,
 			Attributes: model.ServiceAttributes{Name: d.name, Namespace: claNs, Labels: labels, K8sAttributes: model.K8sAttributes{NodeLocal: d.nodeLocal}},
 		})
-		var subsets []*networking.Subset
-		for _, n := range []string{"v1", "v2", "app", "all"} {
-			subsets = append(subsets, &networking.Subset{Name: n, Labels: claSubsets[n]})
-		}
-		dr := &networking.DestinationRule{Host: svcHost(d.name), Subsets: subsets}
-		if d.minHealth {
-			// outlier detection with a minimum health percentage: unhealthy endpoints are not served even when
-			// the process default says so; locality load balancing off so that failover priorities stay out
-			dr.TrafficPolicy = &networking.TrafficPolicy{
-				OutlierDetection: &networking.OutlierDetection{MinHealthPercent: 50},
-				LoadBalancer: &networking.LoadBalancerSettings{
-					LocalityLbSetting: &networking.LocalityLoadBalancerSetting{Enabled: wrapperspb.Bool(false)},
-				},
-			}
-		}
-		cfgs = append(cfgs, config.Config{
-			Meta: config.Meta{GroupVersionKind: gvk.DestinationRule, Name: "dr-" + d.name, Namespace: claNs},
-			Spec: dr,
-		})
+		cfgs = append(cfgs, makeDR(d, 0))
 	}
 	s := txds.NewFakeDiscoveryServer(f, txds.FakeOptions{Services: svcs, Configs: cfgs, MeshConfig: m, Gateways: gatewaysOf(id)})
 	quiet.Silence()
-	w := &claWorld{id: id, f: f, s: s, proxies: map[string]*model.Proxy{}, conns: map[string]*conn{}}
+	w := &claWorld{id: id, f: f, s: s, proxies: map[string]*model.Proxy{}, conns: map[string]*conn{}, drVar: map[string]int{}}
 	w.ds = pxds.NewDiscoveryServer(s.Discovery.Env, map[string]string{}, krt.GlobalDebugHandler)
 	fld := reflect.ValueOf(w.ds).Elem().FieldByName("pushChannel")
 	w.pushCh = reflect.NewAt(fld.Type(), unsafe.Pointer(fld.UnsafeAddr())).Elem()
@@ -238,7 +270,7 @@ func newClaWorld(id int) *claWorld {
 			Type:            model.SidecarProxy,
 			ID:              d.name + "." + claNs,
 			ConfigNamespace: claNs,
-			IPAddresses:     []string{"10.9.9." + strconv.Itoa(i+1)},
+			IPAddresses:     proxyIPs(d, i),
 			Metadata: &model.NodeMetadata{
 				Namespace: claNs, ClusterID: cluster.ID(d.cluster), Network: network.ID(d.network),
 				NodeName: d.node, RequestedNetworkView: d.view,
@@ -246,6 +278,35 @@ func newClaWorld(id int) *claWorld {
 		})
 	}
 	return w
+}
+
+func makeDR(d svcDesc, variant int) config.Config {
+	var subsets []*networking.Subset
+	for _, n := range []string{"v1", "v2", "app", "all"} {
+		subsets = append(subsets, &networking.Subset{Name: n, Labels: subsetLabels(variant, n)})
+	}
+	dr := &networking.DestinationRule{Host: svcHost(d.name), Subsets: subsets}
+	if d.minHealth {
+		// outlier detection with a minimum health percentage: unhealthy endpoints are not served even when
+		// the process default says so; locality load balancing off so that failover priorities stay out
+		dr.TrafficPolicy = &networking.TrafficPolicy{
+			OutlierDetection: &networking.OutlierDetection{MinHealthPercent: 50},
+			LoadBalancer: &networking.LoadBalancerSettings{
+				LocalityLbSetting: &networking.LocalityLoadBalancerSetting{Enabled: wrapperspb.Bool(false)},
+			},
+		}
+	}
+	return config.Config{
+		Meta: config.Meta{GroupVersionKind: gvk.DestinationRule, Name: "dr-" + d.name, Namespace: claNs},
+		Spec: dr,
+	}
+}
+
+func proxyIPs(d proxyDesc, i int) []string {
+	if len(d.ips) > 0 {
+		return d.ips
+	}
+	return []string{"10.9.9." + strconv.Itoa(i+1)}
 }
 
 func (w *claWorld) env() *model.Environment   { return w.s.Discovery.Env }
@@ -264,9 +325,86 @@ func (w *claWorld) reset(unh bool) {
 	}
 	// whether unhealthy endpoints are served is a process-wide default (PILOT_AUTO_SEND_UNHEALTHY_ENDPOINTS)
 	features.DefaultSendUnhealthyEndpoints.Store(unh)
+	for name, v := range w.drVar {
+		if v != 0 {
+			w.setDR(name, 0)
+		}
+	}
+	if w.paOff {
+		w.setPA(false)
+	}
+	w.ds.Push(&model.PushRequest{Forced: true, Reason: model.NewReasonStats(model.GlobalUpdate)})
 	w.env().Cache.ClearAll()
 	w.conns = map[string]*conn{}
 	w.record(func() {})
+}
+
+// waitConfigEvent lets the fake server (whose handlers the config store also notifies, asynchronously)
+// finish its own push for the change, so that it cannot interleave with what follows.
+func (w *claWorld) waitConfigEvent(before int64) {
+	d := w.s.Discovery
+	for i := 0; i < 400 && d.InboundUpdates.Load() == before; i++ {
+		time.Sleep(500 * time.Microsecond)
+	}
+	for i := 0; i < 4000 && d.CommittedUpdates.Load() < d.InboundUpdates.Load(); i++ {
+		time.Sleep(500 * time.Microsecond)
+	}
+}
+
+// publish is what the debouncer does with a request: DiscoveryServer.Push (drops the cache entries of
+// the updated configs, initialises and publishes the new PushContext); then every connection gets it.
+func (w *claWorld) publish(req *model.PushRequest) {
+	if req == nil {
+		return
+	}
+	r := &model.PushRequest{ConfigsUpdated: req.ConfigsUpdated.Copy(), Forced: req.Forced, Reason: model.ReasonStats{}}
+	for k, v := range req.Reason {
+		r.Reason[k] = v
+	}
+	w.ds.Push(r)
+	w.enqueue(req)
+}
+
+// setDR replaces the service's DestinationRule in the config store (variant 1 re-labels the subsets).
+func (w *claWorld) setDR(name string, variant int) {
+	cfg := makeDR(svcDesc{name: name, minHealth: svcByHost(svcHost(name)).minHealth}, variant)
+	store := w.s.Store()
+	before := w.s.Discovery.InboundUpdates.Load()
+	if cur := store.Get(gvk.DestinationRule, cfg.Name, cfg.Namespace); cur != nil {
+		cfg.ResourceVersion = cur.ResourceVersion
+		if _, err := store.Update(cfg); err != nil {
+			panic(err)
+		}
+	}
+	w.waitConfigEvent(before)
+	w.drVar[name] = variant
+	w.publish(&model.PushRequest{
+		ConfigsUpdated: sets.New(model.ConfigKey{Kind: kind.DestinationRule, Name: cfg.Name, Namespace: cfg.Namespace}),
+		Reason:         model.NewReasonStats(model.ConfigUpdate),
+	})
+}
+
+// setPA creates / deletes a namespace-wide PeerAuthentication with mTLS mode DISABLE.
+func (w *claWorld) setPA(off bool) {
+	store := w.s.Store()
+	before := w.s.Discovery.InboundUpdates.Load()
+	if off {
+		_, err := store.Create(config.Config{
+			Meta: config.Meta{GroupVersionKind: gvk.PeerAuthentication, Name: "default", Namespace: claNs},
+			Spec: &securityapi.PeerAuthentication{Mtls: &securityapi.PeerAuthentication_MutualTLS{Mode: securityapi.PeerAuthentication_MutualTLS_DISABLE}},
+		})
+		if err != nil {
+			panic(err)
+		}
+	} else if err := store.Delete(gvk.PeerAuthentication, "default", claNs, nil); err != nil {
+		panic(err)
+	}
+	w.waitConfigEvent(before)
+	w.paOff = off
+	w.publish(&model.PushRequest{
+		ConfigsUpdated: sets.New(model.ConfigKey{Kind: kind.PeerAuthentication, Name: "default", Namespace: claNs}),
+		Reason:         model.NewReasonStats(model.ConfigUpdate),
+	})
 }
 
 // record runs f and returns the (merged) PushRequests that ConfigUpdate queued meanwhile.  `ds` is a
@@ -312,7 +450,7 @@ func (w *claWorld) applyOp(o op) string {
 	switch o.kind {
 	case "upd":
 		req := w.record(func() { ds.EDSUpdate(shardKey(o.sk), o.k.a, o.k.b, o.eps) })
-		w.enqueue(req)
+		w.publish(req)
 		switch {
 		case req == nil:
 			return "NoPush"
@@ -328,17 +466,20 @@ func (w *claWorld) applyOp(o op) string {
 		} else {
 			ds.SvcUpdate(shardKey(o.sk), o.k.a, o.k.b, model.EventDelete)
 		}
-		// the registry's service handler follows the delete with a service push
-		w.enqueue(&model.PushRequest{
+		// the registry's service handler follows the delete with a service push (pilot/pkg/bootstrap/server.go
+		// serviceHandler: ConfigsUpdated = {ServiceEntry host/ns}, Reason ServiceUpdate). Fabricated here: the
+		// stream drives the DiscoveryServer entry points, not a real registry
+		w.publish(&model.PushRequest{
 			ConfigsUpdated: sets.New(model.ConfigKey{Kind: kind.ServiceEntry, Name: o.k.a, Namespace: o.k.b}),
 			Reason:         model.NewReasonStats(model.ServiceUpdate),
 		})
 	case "delshard":
 		ds.RemoveShard(shardKey(o.sk))
-		w.enqueue(&model.PushRequest{Forced: true, Reason: model.NewReasonStats(model.ClusterUpdate)})
+		// (fabricated as well: the multicluster controller follows a cluster removal with a forced full push)
+		w.publish(&model.PushRequest{Forced: true, Reason: model.NewReasonStats(model.ClusterUpdate)})
 	case "prune":
 		ds.PruneShard(shardKey(o.sk), keepMap(o.keep))
-		w.enqueue(&model.PushRequest{Forced: true, Reason: model.NewReasonStats(model.ClusterUpdate)})
+		w.publish(&model.PushRequest{Forced: true, Reason: model.NewReasonStats(model.ClusterUpdate)})
 	}
 	return "-"
 }
@@ -391,14 +532,33 @@ func (w *claWorld) push(name, mode string, qs []claQuery) []*endpoint.ClusterLoa
 	c.pending = nil
 	if req != nil {
 		r := *req
-		r.Push = w.s.PushContext()
+		r.Push = w.env().PushContext()
 		r.Start = time.Now()
+		// as pushConnection does before generating: refresh the proxy's view of the config (SidecarScope ...)
+		pxds.VerifC01ComputeProxyState(w.ds, p, &r)
 		wr := &model.WatchedResource{TypeUrl: v3.EndpointType, ResourceNames: names}
 		var res model.Resources
+		removed := sets.New[string]()
 		if mode == "delta" {
-			res, _, _, _, _ = w.generator().GenerateDeltas(p, &r, wr)
+			var deleted model.DeletedResources
+			var logs model.XdsLogDetails
+			var usedDelta bool
+			res, deleted, logs, usedDelta, _ = w.generator().GenerateDeltas(p, &r, wr)
+			// the rule of pushDeltaXds (delta.go): a generator that used delta names what it removes; one that did
+			// not and is not incremental answered "state of the world": every watched resource it did not send is removed
+			if usedDelta {
+				removed.InsertAll(deleted...)
+			} else if !logs.Incremental {
+				removed = names.Copy()
+				for _, x := range res {
+					removed.Delete(x.Name)
+				}
+			}
 		} else {
 			res, _, _ = w.generator().Generate(p, wr, &r)
+		}
+		for n := range removed {
+			delete(c.served, n)
 		}
 		for _, x := range res {
 			cla := &endpoint.ClusterLoadAssignment{}
@@ -414,12 +574,35 @@ func (w *claWorld) push(name, mode string, qs []claQuery) []*endpoint.ClusterLoa
 	return out
 }
 
+// serviceEndpoints: the CDS-time view of a service's endpoints - a fresh PushContext (initServiceRegistry:
+// EndpointShards.CopyEndpoints into ServiceIndex.instancesByPort) and PushContext.ServiceEndpointsByPort.
+func (w *claWorld) serviceEndpoints(hostname string, port int, labels map[string]string) []string {
+	w.ds.Push(&model.PushRequest{Forced: true, Reason: model.NewReasonStats(model.GlobalUpdate)})
+	push := w.env().PushContext()
+	svc := push.ServiceForHostname(w.proxies["p1"], host.Name(hostname))
+	if svc == nil {
+		return []string{"no-service"}
+	}
+	var toks []string
+	for _, e := range push.ServiceEndpointsByPort(svc, port, labels) {
+		toks = append(toks, encEp(e))
+	}
+	sort.Strings(toks)
+	if len(toks) == 0 {
+		return []string{"-"}
+	}
+	return toks
+}
+
 func (w *claWorld) direct(name string, q claQuery) *endpoint.ClusterLoadAssignment {
-	b := endpoints.NewEndpointBuilder(q.cluster(), w.proxies[name], w.s.PushContext())
+	b := endpoints.NewEndpointBuilder(q.cluster(), w.proxies[name], w.env().PushContext())
 	return b.BuildClusterLoadAssignment(w.index())
 }
 
 func showCLA(cla *endpoint.ClusterLoadAssignment) string {
+	if cla == nil {
+		return "removed" // the proxy holds nothing for the cluster (never sent, or removed by a delta response)
+	}
 	if len(cla.GetEndpoints()) == 0 {
 		return "cla -"
 	}
@@ -495,12 +678,13 @@ func (c *claSUT) apply(f []string) (out string) {
 		c.w = c.world(0)
 		c.w.reset(false)
 	}
-	if f[0] == "push" {
-		if len(f) < 9 || c.w.proxies[f[1]] == nil {
+	switch {
+	case f[0] == "push":
+		if len(f) < 11 || c.w.proxies[f[1]] == nil {
 			return "bad-op"
 		}
 		var qs []claQuery
-		for _, t := range f[8:] {
+		for _, t := range f[10:] {
 			q, ok := parseQuery(t)
 			if !ok {
 				return "bad-op"
@@ -513,6 +697,19 @@ func (c *claSUT) apply(f []string) (out string) {
 			parts[i] = showCLA(cla)
 		}
 		return "served " + strings.Join(parts, " || ")
+	case f[0] == "drset" && len(f) == 3:
+		if svcByHost(svcHost(f[1])).name == "" {
+			return "bad-op"
+		}
+		c.w.setDR(f[1], atoi(f[2]))
+		return "ok"
+	case f[0] == "paset" && len(f) == 2:
+		if (f[1] == "1") != c.w.paOff {
+			c.w.setPA(f[1] == "1")
+		}
+		return "ok"
+	case f[0] == "svcidx" && len(f) == 6:
+		return "eps " + strings.Join(c.w.serviceEndpoints(wire.Dec(f[1]), atoi(f[3]), decLabels(f[4])), ";")
 	}
 	o, ok := parseOp(f)
 	if !ok {
@@ -540,7 +737,7 @@ func genClaEp(r *wire.Rng, world int) *model.IstioEndpoint {
 	e.Namespace = claNs
 	e.ServicePortName = wire.Pick(r, []string{"http", "http", "http", "http", "http", "grpc"})
 	e.EndpointPort = uint32(wire.Pick(r, []int{8080, 8080, 8080, 9090}))
-	e.LegacyClusterPortKey = 0
+	e.LegacyClusterPortKey = wire.Pick(r, []int{0, 0, 0, 0, 0, 0, 80, 81, 99})
 	e.HealthStatus = model.HealthStatus(wire.Pick(r, []int{1, 1, 1, 1, 1, 1, 1, 1, 2, 2, 3, 4, 0}))
 	e.Locality.ClusterID = cluster.ID(wire.Pick(r, []string{"c1", "c1", "c1", "c2", ""}))
 	e.Network = network.ID(wire.Pick(r, []string{"", "", "", "n1", "n2"}))
@@ -575,16 +772,22 @@ func genClaEp(r *wire.Rng, world int) *model.IstioEndpoint {
 	return e
 }
 
-func queryTok(d svcDesc, port int, subset string, unh bool) string {
+func queryTok(d svcDesc, port int, subset string, unh bool, variant int) string {
 	portName := "!"
 	if n, ok := claPorts[port]; ok {
 		portName = wire.Enc(n)
 	}
 	return strings.Join([]string{
 		wire.Enc(svcHost(d.name)), claNs, strconv.Itoa(port), wire.Enc(subset),
-		portName, encLabels(claSubsets[subset]), wire.B(d.clusterLocal), wire.B(d.nodeLocal),
+		portName, encLabels(subsetLabels(variant, subset)), wire.B(d.clusterLocal), wire.B(d.nodeLocal),
 		wire.B(unh && !d.minHealth), wire.B(d.persistent),
 	}, "|")
+}
+
+type watchedCluster struct {
+	d      svcDesc
+	port   int
+	subset string
 }
 
 func genCla(seed uint64, n int, outp string) {
@@ -609,34 +812,60 @@ func genCla(seed uint64, n int, outp string) {
 			svcs = []svcDesc{claSvcs[0], wire.Pick(r, claSvcs)}
 		}
 		// the clusters every proxy of the case watches
-		var watched []string
+		var watched []watchedCluster
 		for _, d := range svcs {
-			watched = append(watched, queryTok(d, 80, "", unh))
-			watched = append(watched, queryTok(d, wire.Pick(r, []int{80, 81, 99}), wire.Pick(r, []string{"v1", "v2", "app", "all", "zz"}), unh))
+			watched = append(watched, watchedCluster{d, 80, ""})
+			watched = append(watched, watchedCluster{d, wire.Pick(r, []int{80, 80, 81, 99}), wire.Pick(r, []string{"v1", "v2", "app", "all", "zz"})})
 		}
-		proxies := wire.Subset(r, claProxies, 1, 2)
-		if len(proxies) == 0 {
-			proxies = claProxies[:1]
-		}
-		pushLine := func(p proxyDesc) {
-			mode := "sotw"
-			if r.Chance(1, 3) {
-				mode = "delta"
+		// the proxies of the case: either p1 with one proxy that differs from it in a single component of the
+		// assignment's cache key (always pushed back to back, nothing in between), or any one or two
+		var proxies []proxyDesc
+		paired := r.Chance(1, 2)
+		if paired {
+			proxies = []proxyDesc{claProxies[0], claProxies[4+r.Intn(5)]}
+			if r.Chance(1, 2) {
+				proxies[0], proxies[1] = proxies[1], proxies[0]
 			}
-			toks := []string{"push", p.name, mode, wire.EncList(p.view), wire.Enc(p.cluster), wire.Enc(p.node), wire.Enc(p.network), encGateways(gatewaysOf(world))}
-			out.Line(append(toks, watched...)...)
+		} else {
+			proxies = wire.Subset(r, claProxies, 1, 4)
+			if len(proxies) == 0 {
+				proxies = claProxies[:1]
+			}
+			if len(proxies) > 2 {
+				proxies = proxies[:2]
+			}
+		}
+		drVar := map[string]int{}
+		paOff := false
+		pushLine := func(p proxyDesc, mode string) {
+			if mode == "" {
+				mode = "sotw"
+				if r.Chance(1, 3) {
+					mode = "delta"
+				}
+			}
+			toks := []string{"push", p.name, mode, wire.EncList(p.view), wire.Enc(p.cluster), wire.Enc(p.node), wire.Enc(p.network),
+				p.ipmode(), wire.B(paOff), encGateways(gatewaysOf(world))}
+			for _, wc := range watched {
+				toks = append(toks, queryTok(wc.d, wc.port, wc.subset, unh, drVar[wc.d.name]))
+			}
+			out.Line(toks...)
+		}
+		pushRound := func(all bool, mode string) {
+			for _, p := range proxies {
+				if all || paired || r.Chance(3, 4) {
+					pushLine(p, mode)
+				}
+			}
 		}
 		last := map[[2]pair][]*model.IstioEndpoint{}
 		nops := 2 + r.Intn(6)
-		// an endpoint without any address (no registry produces one) makes the builder panic: the case
-		// ends with the first push after it
-		poisoned, pushedAfterPoison := false, false
-		for i := 0; i < nops && !pushedAfterPoison; i++ {
+		for i := 0; i < nops; i++ {
 			d := wire.Pick(r, svcs)
 			k := pair{svcHost(d.name), claNs}
 			sk := wire.Pick(r, shards)
 			key := [2]pair{k, sk}
-			switch x := r.Intn(14); {
+			switch x := r.Intn(18); {
 			case x < 11:
 				var eps []*model.IstioEndpoint
 				if len(last[key]) > 0 && r.Chance(2, 3) {
@@ -674,11 +903,6 @@ func genCla(seed uint64, n int, outp string) {
 					e.SendUnhealthyEndpoints = unh
 				}
 				last[key] = eps
-				for _, e := range eps {
-					if len(e.Addresses) == 0 {
-						poisoned = true
-					}
-				}
 				out.Line(opLine(op{kind: "upd", sk: sk, k: k, eps: eps})...)
 			case x < 12:
 				out.Line(opLine(op{kind: "delsvc", sk: sk, k: k, preserve: false})...)
@@ -690,24 +914,39 @@ func genCla(seed uint64, n int, outp string) {
 						last[kk] = nil
 					}
 				}
-			default:
+			case x < 14:
 				out.Line(opLine(op{kind: "prune", sk: sk, keep: nil})...)
 				for kk := range last {
 					if kk[1] == sk {
 						last[kk] = nil
 					}
 				}
-			}
-			if r.Chance(1, 2) || i == nops-1 || poisoned {
-				for j, p := range proxies {
-					if poisoned && j > 0 {
-						break
-					}
-					if r.Chance(3, 4) || i == nops-1 || poisoned {
-						pushLine(p)
-						pushedAfterPoison = poisoned
-					}
+			case x < 16:
+				// a DestinationRule update that re-labels the subsets; nothing else changes, so the next push is a
+				// DestinationRule-only partial push (in delta mode: not incremental, "state of the world" rule)
+				if i == 0 {
+					pushRound(true, "")
 				}
+				drVar[d.name] = 1 - drVar[d.name]
+				out.Line("drset", d.name, strconv.Itoa(drVar[d.name]))
+				pushRound(true, wire.Pick(r, []string{"delta", "delta", "sotw"}))
+				continue
+			case x < 17:
+				if i == 0 {
+					pushRound(true, "")
+				}
+				paOff = !paOff
+				out.Line("paset", wire.B(paOff))
+				pushRound(true, "")
+				continue
+			default:
+				wc := wire.Pick(r, watched)
+				out.Line("svcidx", wire.Enc(svcHost(wc.d.name)), claNs, strconv.Itoa(wire.Pick(r, []int{80, 80, 81, 99})),
+					encLabels(subsetLabels(drVar[wc.d.name], wire.Pick(r, []string{"", "", "v1", "app"}))), "http^80&grpc^81")
+				continue
+			}
+			if r.Chance(1, 2) || i == nops-1 {
+				pushRound(i == nops-1, "")
 			}
 		}
 	}
@@ -728,15 +967,20 @@ func genCla(seed uint64, n int, outp string) {
 //                       their scaled weight, every gateway endpoint's weight is the sum of the shares of the
 //                       remote members of THAT locality routed through it, and a locality without such
 //                       members has no gateway endpoint;
+//   service-endpoints   the CDS-time snapshot (PushContext.ServiceEndpointsByPort over EndpointShards.CopyEndpoints) of a
+//                       service port = the latest reports' endpoints of that port (legacy port key first) with the labels;
 //   never-crashes.
+// Configuration changes (drset: the DestinationRule re-labels its subsets; paset: a PeerAuthentication disables mTLS)
+// reach the proxies as DestinationRule- / PeerAuthentication-only partial pushes; served-is-current and
+// membership-exact then demand that every affected assignment was regenerated.
 
 func sameOrEmpty(a, b string) bool { return a == "" || b == "" || a == b }
 
-func oracleMember(q claQuery, unh bool, d svcDesc, p proxyDesc, sk pair, e *model.IstioEndpoint) bool {
+func oracleMember(q claQuery, unh bool, d svcDesc, variant int, p proxyDesc, sk pair, e *model.IstioEndpoint) bool {
 	if e.ServicePortName != claPorts[q.port] {
 		return false
 	}
-	for k, v := range claSubsets[q.subset] {
+	for k, v := range subsetLabels(variant, q.subset) {
 		if got, ok := e.Labels[k]; !ok || got != v {
 			return false
 		}
@@ -785,14 +1029,53 @@ func epTok(addr string, port int, h int, w uint64, mtls bool) string {
 	return fmt.Sprintf("%s/h%d/w%d/t%s", a, h, w, wire.B(mtls))
 }
 
+func gcd(a, b uint64) uint64 {
+	for b != 0 {
+		a, b = b, a%b
+	}
+	return a
+}
+
+// gatewayScale: every weight is multiplied by the least common multiple of the sizes of the gateway groups
+// (per network, per network and cluster), so that it can be split evenly.
+func gatewayScale(gws []model.NetworkGateway) uint64 {
+	byN, byNC := map[string]uint64{}, map[[2]string]uint64{}
+	for _, g := range gws {
+		byN[string(g.Network)]++
+		byNC[[2]string{string(g.Network), string(g.Cluster)}]++
+	}
+	l := uint64(1)
+	for _, n := range byN {
+		l = l / gcd(l, n) * n
+	}
+	for _, n := range byNC {
+		l = l / gcd(l, n) * n
+	}
+	return l
+}
+
+func satAdd(a, b uint64) uint64 {
+	if a+b > math.MaxUint32 {
+		return math.MaxUint32
+	}
+	return a + b
+}
+
+// gatewayIsV6: the family of a gateway address; an IPv4-mapped IPv6 address is an IPv4 address.
+func gatewayIsV6(addr string) bool {
+	ip, err := netip.ParseAddr(addr)
+	return err == nil && ip.Unmap().Is6()
+}
+
 // expected computes, per locality, the multiset of endpoint tokens the property demands.
-func expected(world int, q claQuery, unh bool, d svcDesc, p proxyDesc, want map[pair][]*model.IstioEndpoint) map[string][]string {
+func expected(world int, q claQuery, unh bool, d svcDesc, variant int, paOff bool, p proxyDesc, want map[pair][]*model.IstioEndpoint) map[string][]string {
 	exp := map[string][]string{}
 	if _, ok := claPorts[q.port]; !ok {
 		return exp
 	}
 	gws := gatewaysOf(world)
-	// gateways usable by a sidecar for (network, cluster): those of the network and cluster, else of the network
+	// gateways a sidecar may use for an endpoint: those of the endpoint's network in the endpoint's cluster if
+	// there are any, else all of the network; only gateways with an mTLS port
 	usable := func(nw, cl string) []model.NetworkGateway {
 		var nc, n []model.NetworkGateway
 		for _, g := range gws {
@@ -814,10 +1097,8 @@ func expected(world int, q claQuery, unh bool, d svcDesc, p proxyDesc, want map[
 		}
 		return out
 	}
-	scale := uint64(1)
-	if world == 1 {
-		scale = 2 // lcm of the gateway group sizes of claGateways (1, 2, 2, 1 / 2, 2, 1)
-	}
+	scale := gatewayScale(gws)
+	v4, v6 := strings.Contains(p.ipmode(), "4"), strings.Contains(p.ipmode(), "6")
 	type gwKey struct {
 		addr string
 		port uint32
@@ -825,7 +1106,7 @@ func expected(world int, q claQuery, unh bool, d svcDesc, p proxyDesc, want map[
 	gwW := map[string]map[gwKey]uint64{}
 	for sk, eps := range want {
 		for _, e := range eps {
-			if !oracleMember(q, unh, d, p, sk, e) {
+			if !oracleMember(q, unh, d, variant, p, sk, e) {
 				continue
 			}
 			w := uint64(e.LbWeight)
@@ -836,9 +1117,10 @@ func expected(world int, q claQuery, unh bool, d svcDesc, p proxyDesc, want map[
 			if e.Labels[features.DrainingLabel] != "" {
 				h = int(model.Draining)
 			}
+			mtls := e.TLSMode == model.IstioMutualTLSModeLabel && !paOff
 			loc := e.Locality.Label
 			if world == 0 {
-				exp[loc] = append(exp[loc], epTok(e.Addresses[0], int(e.EndpointPort), h, w, e.TLSMode == model.IstioMutualTLSModeLabel))
+				exp[loc] = append(exp[loc], epTok(e.Addresses[0], int(e.EndpointPort), h, w, mtls))
 				continue
 			}
 			// multi-network
@@ -853,24 +1135,25 @@ func expected(world int, q claQuery, unh bool, d svcDesc, p proxyDesc, want map[
 			remote := len(ug) > 0 && (p.network == "" && e.Network != "" || !sameOrEmpty(string(e.Network), p.network))
 			if !remote {
 				if e.EndpointPort != 0 && e.Addresses[0] != "" {
-					exp[loc] = append(exp[loc], epTok(e.Addresses[0], int(e.EndpointPort), h, w, e.TLSMode == model.IstioMutualTLSModeLabel))
+					exp[loc] = append(exp[loc], epTok(e.Addresses[0], int(e.EndpointPort), h, w, mtls))
 				}
 				continue
 			}
 			var reach []model.NetworkGateway
 			for _, g := range ug {
-				if !strings.Contains(g.Addr, ":") { // the proxies are IPv4 only
+				is6 := gatewayIsV6(g.Addr)
+				if v4 == v6 || (is6 && v6) || (!is6 && v4) {
 					reach = append(reach, g)
 				}
 			}
-			if len(reach) == 0 || e.TLSMode != model.IstioMutualTLSModeLabel {
+			if len(reach) == 0 || !mtls {
 				continue
 			}
 			if gwW[loc] == nil {
 				gwW[loc] = map[gwKey]uint64{}
 			}
 			for _, g := range reach {
-				gwW[loc][gwKey{g.Addr, g.Port}] = (gwW[loc][gwKey{g.Addr, g.Port}] + w/uint64(len(reach))) % (1 << 32)
+				gwW[loc][gwKey{g.Addr, g.Port}] = satAdd(gwW[loc][gwKey{g.Addr, g.Port}], w/uint64(len(reach)))
 			}
 		}
 	}
@@ -893,6 +1176,7 @@ func oracleCla(in, outp string) {
 	verdict, open, idx := "", false, 0
 	world, unh := 0, false
 	want := map[pair]map[pair][]*model.IstioEndpoint{}
+	drVar, paOff := map[string]int{}, false
 	flush := func() {
 		if open {
 			if verdict == "" {
@@ -912,10 +1196,69 @@ func oracleCla(in, outp string) {
 			c.apply(f)
 			world, unh = c.w.id, len(f) >= 5 && f[4] == "1"
 			want = map[pair]map[pair][]*model.IstioEndpoint{}
+			drVar, paOff = map[string]int{}, false
 			verdict, open, idx = "", true, 0
 			continue
 		}
 		idx++
+		switch f[0] {
+		case "drset":
+			if len(f) == 3 {
+				c.apply(f)
+				drVar[f[1]] = atoi(f[2])
+			}
+			continue
+		case "paset":
+			if len(f) == 2 {
+				c.apply(f)
+				paOff = f[1] == "1"
+			}
+			continue
+		case "svcidx":
+			if len(f) != 6 {
+				continue
+			}
+			// service-endpoints: the PushContext's snapshot of the service's endpoints for a port = the latest
+			// reports' endpoints that belong to that service port (legacy port key first, else port name)
+			// and carry the labels
+			got := strings.TrimPrefix(c.apply(f), "eps ")
+			var exp []string
+			port := atoi(f[3])
+			for _, eps := range want[pair{wire.Dec(f[1]), f[2]}] {
+				for _, e := range eps {
+					pn := 0
+					if e.LegacyClusterPortKey != 0 {
+						if _, ok := claPorts[e.LegacyClusterPortKey]; ok {
+							pn = e.LegacyClusterPortKey
+						}
+					} else {
+						for n, name := range claPorts {
+							if name == e.ServicePortName {
+								pn = n
+							}
+						}
+					}
+					okLabels := true
+					for k, v := range decLabels(f[4]) {
+						if e.Labels[k] != v {
+							okLabels = false
+						}
+					}
+					if pn == port && pn != 0 && okLabels {
+						exp = append(exp, encEp(e))
+					}
+				}
+			}
+			sort.Strings(exp)
+			e := strings.Join(exp, ";")
+			if e == "" {
+				e = "-"
+			}
+			if got != e {
+				fail("service-endpoints", fmt.Sprintf("%s port %d: want %s got %s", f[1], port, e, got))
+			}
+			continue
+		}
 		if f[0] != "push" {
 			o, ok := parseOp(f)
 			if !ok {
@@ -953,11 +1296,11 @@ func oracleCla(in, outp string) {
 			}
 			continue
 		}
-		if len(f) < 9 || c.w == nil || c.w.proxies[f[1]] == nil {
+		if len(f) < 11 || c.w == nil || c.w.proxies[f[1]] == nil {
 			continue
 		}
 		var qs []claQuery
-		for _, t := range f[8:] {
+		for _, t := range f[10:] {
 			if q, ok := parseQuery(t); ok {
 				qs = append(qs, q)
 			}
@@ -1006,7 +1349,7 @@ func oracleCla(in, outp string) {
 				continue
 			}
 			d := svcByHost(q.svc)
-			exp := expected(world, q, unh, d, p, want[pair{q.svc, q.ns}])
+			exp := expected(world, q, unh, d, drVar[d.name], paOff, p, want[pair{q.svc, q.ns}])
 			got := map[string][]string{}
 			seenLoc := map[string]bool{}
 			for _, g := range cla.GetEndpoints() {
@@ -1032,8 +1375,8 @@ func oracleCla(in, outp string) {
 					if len(g.LbEndpoints) == 0 {
 						fail("grouped-by-locality", "empty locality group "+loc)
 					}
-				} else {
-					sum %= 1 << 32
+				} else if sum > math.MaxUint32 {
+					sum = math.MaxUint32 // consistent weights: a locality's weight never wraps around
 				}
 				if uint64(g.GetLoadBalancingWeight().GetValue()) != sum {
 					fail("weights-consistent", fmt.Sprintf("locality %s weight %d, endpoints sum to %d", loc, g.GetLoadBalancingWeight().GetValue(), sum))
